@@ -358,7 +358,7 @@ func WiringRows(fn *ssa.Function, want func(callee string) bool) []string {
 }
 
 // wiringScope lists the packages whose functions are in the generated table.
-var wiringScope = []string{"converters", "converters/ingress", "converters/gateway", "converters/utils", "converters/configmap", "converters/ingress/annotations", "haproxy", "haproxy/types", "haproxy/socket", "haproxy/template", "acme", "utils/workqueue", "controller/services", "controller/legacy", "controller/reconciler", "common/net/ssl", "utils"}
+var wiringScope = []string{"converters", "converters/ingress", "converters/gateway", "converters/utils", "converters/configmap", "converters/ingress/annotations", "haproxy", "haproxy/types", "haproxy/socket", "haproxy/template", "acme", "utils/workqueue", "controller/services", "controller/legacy", "controller/reconciler", "common/net/ssl", "utils", "controller/config", "controller/utils", "converters/ingress/utils", "common/ingress/controller"}
 
 // WiringAll renders the table of the current tree (used by `hapverif genwiring`).
 func WiringAll(env *core.Env) map[string][]string {
@@ -447,6 +447,8 @@ var wiringGroups = []wiringGroup{
 	{[]string{"C17"}, "acme signer", []string{"acme"}, nil, "every call of the signer and the client"},
 	{[]string{"C08", "C09", "C15", "C17", "C10", "C01", "C12", "C13"}, "cache facades and services", []string{"controller/services", "controller/legacy", "common/net/ssl", "utils"}, nil,
 		"every call of the cache facades of both runtimes: which API version, namespace, name and file name a read or a write is made with"},
+	{[]string{"C08", "C09", "C13", "C19", "C12", "C17", "C03", "C02", "C11"}, "options", []string{"controller/config", "controller/utils", "common/ingress/controller", "converters/ingress/utils"}, nil,
+		"how the command-line options reach the converters, the cache and the instance"},
 	{[]string{"C14", "C08", "C13"}, "watchers", []string{"controller/reconciler"}, nil, "every call of the watchers and the reconciler"},
 	{[]string{"C13", "C12"}, "queues", []string{"utils/workqueue"}, nil, "every call of the work queue and the limiters"},
 	{[]string{"C19"}, "snippets", []string{"converters/ingress/annotations"},
